@@ -259,7 +259,11 @@ func execChain(f []string) vlib.Res {
 // ---- share: Resolver.groupLookup under concurrent identical lookups ------------
 
 func execShare(f []string) vlib.Res {
-	// share run <delay-ms> <id,id,...>
+	if f[1] == "walk" {
+		return execShareWalk(f)
+	}
+	// share run <delay-ms> <id,id,...> <owned t/f>
+	owned := len(f) > 4 && f[4] == "t"
 	delay := time.Duration(vlib.Atoi(f[2])) * time.Millisecond
 	var ids []uint16
 	for _, s := range strings.Split(f[3], ",") {
@@ -299,7 +303,7 @@ func execShare(f []string) vlib.Res {
 			<-start
 			ctx, cancel := context.WithTimeout(context.Background(), 3*time.Second)
 			defer cancel()
-			resps[i], errs[i] = resolver.VerifC10GroupLookup(ctx, p.Resolver, req, servers)
+			resps[i], errs[i] = resolver.VerifC10GroupLookup(ctx, p.Resolver, req, servers, owned)
 		}(i)
 	}
 	close(start)
@@ -405,4 +409,78 @@ func execPool(f []string) vlib.Res {
 		}
 	}
 	return vlib.Res{Impl: strings.Join(got, ","), Oracle: or, Tags: "nt"}
+}
+
+var walkSeq int
+
+// execShareWalk: end to end. DNSSEC validation and QNAME minimisation on;
+// n clients resolve DIFFERENT names under one nonexistent parent of the signed
+// root at the same moment, while the root holds its answer for the minimised
+// probe so that the walks share one upstream lookup. Every client must get a
+// reply with its own id and its own question.
+func execShareWalk(f []string) vlib.Res {
+	// share walk <hold-ms> <id,id,...>
+	hold := time.Duration(vlib.Atoi(f[2])) * time.Millisecond
+	var ids []uint16
+	for _, s := range strings.Split(f[3], ",") {
+		ids = append(ids, uint16(vlib.Atoi(s)))
+	}
+	walkSeq++
+	w := l3.NewWorld(true)
+	defer w.Close()
+	p := l3.NewPipe(w, l3.PipeOpts{DNSSEC: true, Tweak: func(cfg *config.Config) { cfg.QnameMinLevel = 5 }})
+	defer p.Close()
+	if r := p.Query(fmt.Sprintf("x.warm%d.", walkSeq), dns.TypeA, l3.Flags{DO: true}); r == nil {
+		return vlib.Res{Impl: "warmup-failed", Oracle: "-"}
+	}
+	tld := fmt.Sprintf("gone%d.", walkSeq)
+	root := w.Root.Servers[0]
+	root.SetBehaviour(l3.Behaviour{Delay: func(q dns.Question, _ bool) time.Duration {
+		if strings.EqualFold(q.Name, tld) {
+			return hold
+		}
+		return 0
+	}})
+	before := int(root.UDPQueries.Load() + root.TCPQueries.Load())
+	names := make([]string, len(ids))
+	resps := make([]*dns.Msg, len(ids))
+	var wg sync.WaitGroup
+	for i := range ids {
+		names[i] = fmt.Sprintf("%c.%s", 'a'+i, tld)
+		wg.Add(1)
+		go func(i int) {
+			defer wg.Done()
+			req := new(dns.Msg)
+			req.SetQuestion(names[i], dns.TypeA)
+			req.Id = ids[i]
+			req.SetEdns0(1232, true)
+			resps[i] = p.Exchange(req, l3.Flags{Client: fmt.Sprintf("10.1.2.%d:4242", 10+i)})
+		}(i)
+	}
+	wg.Wait()
+	probes := int(root.UDPQueries.Load()+root.TCPQueries.Load()) - before
+	or := "ok"
+	got := make([]string, len(ids))
+	ownQ := true
+	for i, r := range resps {
+		if r == nil {
+			got[i] = "none"
+			continue
+		}
+		got[i] = fmt.Sprint(r.Id)
+		if r.Id != ids[i] && or == "ok" {
+			or = fail("share/walk/id-of-another-client", "client %d (%s, id %d) received a reply carrying id %d", i, names[i], ids[i], r.Id)
+		}
+		if len(r.Question) != 1 || !strings.EqualFold(r.Question[0].Name, names[i]) {
+			ownQ = false
+			if or == "ok" {
+				or = fail("share/walk/question-of-another-client", "client %d asked %s and received a reply for %v", i, names[i], r.Question)
+			}
+		}
+	}
+	tags := "nt"
+	if probes < len(ids) {
+		tags += fmt.Sprintf(",sharedwalk%d", len(ids)-probes)
+	}
+	return vlib.Res{Impl: fmt.Sprintf("ids=%s ownq=%s", strings.Join(got, ","), vlib.B(ownQ)), Oracle: or, Tags: tags}
 }
